@@ -126,6 +126,8 @@ type gen struct {
 	small bool  // small records (exhaustive logs)
 	h     int64 // last end-height written
 	parts []*types.PartSet
+
+	rejected int // draws outside the ValidateBasic domain
 }
 
 func (g *gen) u64() uint64 {
@@ -173,8 +175,16 @@ func (g *gen) hash() common.Hash {
 	return h
 }
 
+// completeBlockID: non-zero hashes and a part count inside the bound validation puts on it.
 func (g *gen) completeBlockID() types.BlockID {
-	return types.BlockID{Hash: g.hash(), PartsHeader: types.PartSetHeader{Total: g.u32(), Hash: g.hash()}}
+	total := uint32(g.r.Intn(20))
+	switch g.r.Intn(8) {
+	case 0:
+		total = types.MaxBlockPartsCount
+	case 1:
+		total = uint32(g.r.Intn(types.MaxBlockPartsCount + 1))
+	}
+	return types.BlockID{Hash: g.hash(), PartsHeader: types.PartSetHeader{Total: total, Hash: g.hash()}}
 }
 
 func (g *gen) sig() []byte {
@@ -233,8 +243,27 @@ func (g *gen) partSet() *types.PartSet {
 }
 
 // msg generates one message of the given kind (0..5) inside the domain the consensus
-// state writes: peer and internal messages that passed ValidateBasic.
+// state writes: peer and internal messages that passed ValidateBasic. The real ValidateBasic
+// is the definition of that domain (the decoder re-validates what it reads), so a draw it
+// rejects is discarded; rejected counts such draws.
 func (g *gen) msg(kind int) consensus.WALMessage {
+	for try := 0; ; try++ {
+		m := g.draw(kind)
+		if mi, ok := m.(consensus.VerifMsgInfo); ok && try < 50 {
+			err := mi.Msg.ValidateBasic()
+			if bp, isPart := mi.Msg.(*consensus.BlockPartMessage); isPart && err == nil {
+				err = bp.Part.Proof.ValidateBasic()
+			}
+			if err != nil {
+				g.rejected++
+				continue
+			}
+		}
+		return m
+	}
+}
+
+func (g *gen) draw(kind int) consensus.WALMessage {
 	switch kind {
 	case 0:
 		step := stepNames[g.r.Intn(len(stepNames))]
